@@ -6,6 +6,9 @@ import (
 	"encoding/json"
 	"fmt"
 	"os"
+	"seata.apache.org/seata-go/pkg/datasource/sql/types"
+	"seata.apache.org/seata-go/pkg/datasource/sql/undo/base"
+	"sort"
 	"strings"
 	"time"
 
@@ -80,6 +83,12 @@ func programs(thorough bool) []gen.Program {
 		for _, a := range al {
 			for _, part := range [][]int{{1, 0}, {0, 0}, {1, 2}} {
 				out = append(out, gen.Program{Schema: s.ID, Steps: []gen.Step{{Stmt: a, Group: part[0]}, {Stmt: al[1], Group: part[1]}}, Pinned: true, ContinueOnError: true, Init: []int{0, 1, 2}})
+			}
+		}
+		// ... and business code that carries on inside the same local transaction after one of its statements failed, and commits it
+		for _, a := range al {
+			for _, pinned := range []bool{false, true} {
+				out = append(out, gen.Program{Schema: s.ID, Steps: []gen.Step{{Stmt: a, Group: 1}, {Stmt: al[1], Group: 1}}, Pinned: pinned, ContinueOnError: true, KeepTx: true, Init: []int{0, 1, 2}})
 			}
 		}
 		// length 2: same local transaction, and two local transactions
@@ -376,6 +385,15 @@ func Enumerate(e *sys.Env, thorough bool, yield func(idx int, c Case)) int {
 					idx++
 				}
 			}
+		} else if len(p.Steps) == 1 {
+			// quick tier: the one double deviation whose second half is not a step of its own - a database error at any step
+			// while the phase-one-failed report can never be delivered
+			for _, d := range singles {
+				if d.Kind == "db-error" {
+					yield(idx, Case{Program: p, Devs: []Deviation{d, {Kind: "report-fail", N: 99}}})
+					idx++
+				}
+			}
 		}
 	}
 	return idx
@@ -453,7 +471,149 @@ func shape(p gen.Program) string {
 	if p.ContinueOnError {
 		out += "-continue"
 	}
+	if p.KeepTx {
+		out += "-sametx"
+	}
 	return out
+}
+
+// imageKeys lists the rows named by the undo-log images that each successful local commit wrote ("table/before|after/pk").
+func imageKeys(e *sys.Env, journal []memdb.Entry) []string {
+	var out []string
+	ut := e.Srv.TableDef("undo_log")
+	if ut == nil {
+		return nil
+	}
+	ci, ii := ut.ColIndexPublic("context"), ut.ColIndexPublic("rollback_info")
+	for _, j := range journal {
+		if j.Kind != "commit" || j.Err != "" {
+			continue
+		}
+		for _, d := range j.Diff {
+			if !strings.EqualFold(d.Table, "undo_log") || d.After == nil || ci < 0 || ii < 0 {
+				continue
+			}
+			func() {
+				defer func() { recover() }()
+				bl, err := base.VerifDecode(memdb.TextOf(d.After[ci]), memdb.TextOf(d.After[ii]))
+				if err != nil || bl == nil {
+					out = append(out, "(undecodable undo log)")
+					return
+				}
+				for _, l := range bl.Logs {
+					for which, img := range map[string]*types.RecordImage{"before": l.BeforeImage, "after": l.AfterImage} {
+						if img == nil {
+							continue
+						}
+						for _, row := range img.Rows {
+							var pk []string
+							for _, col := range row.Columns {
+								if col.KeyType == types.IndexTypePrimaryKey {
+									v := col.Value
+									if b, ok := v.([]byte); ok {
+										v = string(b)
+									}
+									pk = append(pk, fmt.Sprintf("%s=%v", strings.ToLower(col.ColumnName), v))
+								}
+							}
+							sort.Strings(pk)
+							out = append(out, fmt.Sprintf("%s/%s/%s", strings.ToLower(l.TableName), which, strings.Join(pk, ",")))
+						}
+					}
+				}
+			}()
+		}
+	}
+	sort.Strings(out)
+	return out
+}
+
+// writtenRowsHaveImages: every business row a successful local commit makes durable is named by an image of the undo log
+// written with that commit (otherwise a global rollback cannot undo it).
+func writtenRowsHaveImages(e *sys.Env, c Case, rr *runResult) (clause, detail string) {
+	ut := e.Srv.TableDef("undo_log")
+	if ut == nil {
+		return "", ""
+	}
+	for _, j := range rr.obs.Journal {
+		if j.Kind != "commit" || j.Err != "" {
+			continue
+		}
+		hasUndo := false
+		for _, d := range j.Diff {
+			if strings.EqualFold(d.Table, "undo_log") && d.After != nil {
+				hasUndo = true
+			}
+		}
+		if !hasUndo {
+			continue // the coarse clause (business without any undo log) is judged by check()
+		}
+		keys := map[string]bool{}
+		for _, k := range imageKeys(e, []memdb.Entry{j}) {
+			parts := strings.SplitN(k, "/", 3)
+			if len(parts) == 3 {
+				keys[parts[0]+"/"+parts[2]] = true
+			}
+		}
+		for _, d := range j.Diff {
+			if !isBusinessTable(d.Table) {
+				continue
+			}
+			t := e.Srv.TableDef(d.Table)
+			if t == nil {
+				continue
+			}
+			row := d.After
+			if row == nil {
+				row = d.Before
+			}
+			var pk []string
+			for _, ci := range t.PK {
+				pk = append(pk, fmt.Sprintf("%s=%s", strings.ToLower(t.Cols[ci].Name), memdb.TextOf(row[ci])))
+			}
+			sort.Strings(pk)
+			k := strings.ToLower(d.Table) + "/" + strings.Join(pk, ",")
+			if !keys[k] {
+				return "written-row-without-image", fmt.Sprintf("the local commit made a write to %s durable that no image of its undo log names (images: %v)", k, imageKeys(e, []memdb.Entry{j}))
+			}
+		}
+	}
+	return "", ""
+}
+
+// failedStatementLeavesNoImage: in a transaction that carries on after one of its statements failed at the database, the
+// images written with the commit are those of the same program without that statement.
+func failedStatementLeavesNoImage(e *sys.Env, c Case, rr *runResult) (clause, detail string) {
+	if !c.Program.ContinueOnError || len(c.Devs) != 1 || c.Devs[0].Kind != "db-error" || stepName(rr, c.Devs[0].Step) != "exec-business" {
+		return "", ""
+	}
+	failed := -1
+	for i, st := range rr.obs.Steps {
+		if st.Err != "" || st.Panic != "" {
+			if failed >= 0 {
+				return "", ""
+			}
+			failed = i
+		}
+	}
+	if failed < 0 || len(rr.obs.Steps) != len(c.Program.Steps) {
+		return "", ""
+	}
+	got := imageKeys(e, rr.obs.Journal)
+	ref := c.Program
+	ref.Steps = append(append([]gen.Step{}, c.Program.Steps[:failed]...), c.Program.Steps[failed+1:]...)
+	if len(ref.Steps) == 0 {
+		return "", ""
+	}
+	rr2, broken := run(e, Case{Program: ref})
+	if broken != "" || rr2 == nil {
+		return "", ""
+	}
+	want := imageKeys(e, rr2.obs.Journal)
+	if strings.Join(got, ";") != strings.Join(want, ";") {
+		return "failed-statement-left-images", fmt.Sprintf("statement %d (%s) failed at the database and the transaction carried on: the committed undo log names %v, the same program without that statement records %v", failed, c.Program.Steps[failed].Stmt.Name, got, want)
+	}
+	return "", ""
 }
 
 func evalCase(r *rep.Run, e *sys.Env, c Case, idx int) {
@@ -467,6 +627,12 @@ func evalCase(r *rep.Run, e *sys.Env, c Case, idx int) {
 		r.Sample(map[string]interface{}{"program": c.Program.Names(), "schema": c.Program.Schema, "deviations": c.Devs, "db_steps": rr.dbOps, "registrations": rr.registers, "reports": rr.reports, "business_error": rr.obs.BusinessErr})
 	}
 	clause, detail := check(c, rr)
+	if clause == "" {
+		clause, detail = failedStatementLeavesNoImage(e, c, rr)
+	}
+	if clause == "" {
+		clause, detail = writtenRowsHaveImages(e, c, rr)
+	}
 	if os.Getenv("VERIF_TRACE") != "" {
 		fmt.Printf("==== %d %s devs=%v clause=%s %s\n", idx, c.Program.Names(), c.Devs, clause, detail)
 		for _, j := range rr.obs.Journal {
